@@ -20,7 +20,7 @@ def main():
         seeds = a.seeds.split(",") if a.seeds else None
         ops = a.ops.split(",") if a.ops else None
         prop = a.prop.upper()
-        if prop in ("C01", "C04", "C07", "C17"):
+        if prop in ("C01", "C04", "C07", "C17", "C10", "C05"):
             from .check_sweep import run_property
 
             sys.exit(run_property(prop, a.tier, seeds, ops))
